@@ -1,6 +1,7 @@
 SPECIFICATION Spec
 CONSTANTS
   ReserveK = {1048572, 1048576, 900000}
+  GapK = {1048576, 2097000}
   AppendK = {524288}
   MemberCounts = {30000, 65535, 35535}
   FieldCounts = {256, 257}
